@@ -7,3 +7,9 @@ PROPS = {
   note='Trusted: clang-14 IR equals the built program for this config.h; indirect calls are over-approximated by type. Not decided: user accessor callbacks, glyph cache (mutable argument), the non-constructor configuration.'),
 }
 NA_REASONS = {}
+PROPS['C02'] = dict(
+  technique='static analysis: decoded dispatch tables checked against a licence predicate (T-TAB), sibling agreement of table rows, cache-key coverage, fail-before-write path query and dropped-status (T-ERR) with a depth-set discharge',
+  text='Decides for all 506 composite and 68 iterator table entries of every implementation the build compiles (including MMX/C entries that SSE2 shadows in every test run) that the entry pins accessors, alpha map, '
+       'narrowness, filter kind and sampling geometry for every image a raw routine reads; that each routine is registered only for layouts of one depth/channel order; that the chain ends in catch-alls; that the '
+       'fast-path cache key covers all seven members; that blt/fill primitives return FALSE only before writing and that no caller drops that status unless its table rows guarantee the depth. Necessary conditions of implementation equivalence; the pixel arithmetic of the routines is not decided.',
+  note='Trusted: clang-14 IR = built program; the licence predicate (closed list of flag shapes) transcribed from pixman-private.h semantics and calibrated to 0 deviations on the pinned tree. Non-x86 SIMD units are not compiled by this build and not analysed.')
